@@ -79,6 +79,11 @@ class SStr:
         return V.snot(self.__eq__(o))
 
     def __hash__(self):
+        # hashing pins every character (one path per value): affordable for a character or two that
+        # the path condition has already narrowed down, hopeless for free text - say so at once
+        nsym = sum(1 for c in self.items if not _real_isinstance(c, _real_int))
+        if nsym > 2:
+            raise Unsupported("hashing text with more than two symbolic characters (used as a dictionary / cache key)")
         return hash(self.concretize())
 
     def concretize(self):
